@@ -1,5 +1,197 @@
 import PkVerif.Drv.Common
-/-! `pkmodel-c04`: stub (property not built yet). -/
+import PkVerif.Model.BlobPacked
+import PkVerif.Gen.C04
+import PkVerif.Gen.Facts
+/-! `pkmodel-c04`: the blobpacked model (`Pk.BP`) behind the line protocol of harness/props/c04. -/
 namespace Pk.Drv.C04
-def machine : Machine := { σ := Unit, init := (), step := fun s _ => (s, "bad-op") }
+open Pk Pk.BP Pk.SMap
+
+structure DS where
+  cfgd : Bool
+  live : Bool
+  c : Cfg
+  s : St
+  kinds : List (Ref × Kind)
+
+def mkCfg (zipMax : Nat) : Cfg :=
+  { zipMax := if zipMax = 0 then Gen.maxBlobSize else zipMax,
+    packThreshold := Gen.bpPackThreshold, fixedOverhead := Gen.bpZipFixedOverhead,
+    perEntryOverhead := Gen.bpZipPerEntryOverhead, manifestApprox := (204 + 0 * 119) / 2, legacy := false }
+
+def init : DS := ⟨false, false, mkCfg 0, St.empty, []⟩
+
+def lookupKind (kinds : List (Ref × Kind)) (r : Ref) : Kind :=
+  match kinds.find? (fun p => p.1 == r) with
+  | some p => p.2
+  | none => .raw
+
+/-- `s` without its first `n` characters -/
+def dropS (s : String) (n : Nat) : String := String.ofList (s.toList.drop n)
+
+def nat? (s : String) : Option Nat := if s.isEmpty then none else s.toNat?
+
+def parsePart (w : String) : Option Part :=
+  match w.splitOn ":" with
+  | ["B", r, o, n] => do let o ← nat? o; let n ← nat? n; pure ⟨.blob, ofString r, o, n⟩
+  | ["S", r, o, n] => do let o ← nat? o; let n ← nat? n; pure ⟨.bytes, ofString r, o, n⟩
+  | ["H", n] => do let n ← nat? n; pure ⟨.hole, [], 0, n⟩
+  | ["X", n] => do let n ← nat? n; pure ⟨.both, [], 0, n⟩
+  | _ => none
+
+def parseParts (w : String) : Option (List Part) :=
+  if w == "-" then some [] else (w.splitOn ",").mapM parsePart
+
+def parseKind (w : String) : Option Kind :=
+  if w == "raw" then some .raw
+  else if w.startsWith "bytes:" then (parseParts (dropS w 6)).map .bytes
+  else if w.startsWith "file:1:" then (parseParts (dropS w 7)).map (.file true)
+  else if w.startsWith "file:0:" then (parseParts (dropS w 7)).map (.file false)
+  else none
+
+def parseBudget (w : String) : Option Budget :=
+  match (dropS w 2).splitOn "." with
+  | [k] => do let k ← nat? k; pure ⟨some k, 0, false⟩
+  | [k, j] => do let k ← nat? k; let j ← nat? j; pure ⟨some k, j, false⟩
+  | _ => none
+
+def parseLayout (w : String) : Option ZipLayout :=
+  match w.splitOn ":" with
+  | [r, sz, ds, so] => do
+    let sz ← nat? sz
+    let ds ← nat? ds
+    let so ← if so == "-" then some [] else (so.splitOn "/").mapM nat?
+    pure ⟨ofString r, sz, ds, so⟩
+  | _ => none
+
+def parseLayouts (w : String) : Option (List ZipLayout) :=
+  if w == "-" then some [] else (w.splitOn ",").mapM parseLayout
+
+def fnv64 (b : Bytes) : UInt64 :=
+  b.foldl (fun h c => (h ^^^ UInt64.ofNat c) * 1099511628211) 14695981039346656037
+
+def showBytes (b : Bytes) : String := s!"ok {b.length} {(fnv64 b).toNat}"
+
+def showFOut : FOut → String
+  | .ok b => showBytes b
+  | .notExist => "notexist"
+  | .err => "err"
+
+def refStr (r : Ref) : String := toAsciiString r
+
+def joinOrDash (sep : String) (l : List String) : String :=
+  if l.isEmpty then "-" else sep.intercalate l
+
+def sortStrings (l : List String) : List String := l.mergeSort (fun a b => decide (a ≤ b))
+
+def dump (s : St) : String :=
+  let rows : List String :=
+    s.b.map (fun p => s!"b:{refStr p.1}={p.2.size},{refStr p.2.zip},{p.2.off}") ++
+    s.w.flatMap (fun p =>
+      (match p.2.final with
+       | some (sz, n) => [s!"w:{refStr p.1}={sz},{n}"]
+       | none => []) ++
+      p.2.parts.map (fun q => s!"w:{refStr p.1}:{q.idx}={refStr q.zip},{q.zipOff},{q.wholeOff},{q.len}")) ++
+    s.z.map (fun p => s!"z:{refStr p.1}={p.2.zipSize},{refStr p.2.wholeRef},{p.2.wholeSize},{p.2.off},{p.2.dataSize}") ++
+    s.d.map (fun p => s!"d:{refStr p.1}=t")
+  s!"small={joinOrDash ";" (sortStrings (s.small.map (fun p => refStr p.1)))} " ++
+  s!"large={joinOrDash ";" (sortStrings (s.large.map (fun p => refStr p.1)))} " ++
+  s!"meta={joinOrDash ";" (sortStrings rows)}"
+
+def showMode : Mode → String
+  | .none => "none"
+  | .fast => "fast"
+  | .full => "full"
+
+def loopFuel : Nat := 4000
+
+def doRecv (st : DS) (r v k : String) (bud : Budget) (whole : Ref) (lays : List ZipLayout) : DS × String :=
+  match hexArg v, parseKind k with
+  | some bytes, some kind =>
+    if !st.live then (st, "nosto")
+    else
+      let ref := ofString r
+      let kinds := if (st.kinds.find? (fun p => p.1 == ref)).isSome then st.kinds else (ref, kind) :: st.kinds
+      let env : PackEnv := ⟨st.c, lookupKind kinds, fun _ => whole⟩
+      let res := receive env st.s bud ref bytes lays loopFuel
+      let st' := { st with s := res.s, kinds := kinds }
+      if res.outOfFuel then (st', "fuel")
+      else match res.size with
+        | none => (st', "err")
+        | some n => (st', s!"ok {n} t={res.truncs} o={res.overflows}")
+  | _, _ => (st, "bad-op")
+
+def isRef (w : String) : Bool :=
+  w.startsWith "sha224-" && w.length == 63 && (dropS w 7).all (fun c => c.isDigit || ('a' ≤ c && c ≤ 'f'))
+
+def step (st : DS) (ws : List String) : DS × String :=
+  match ws with
+  | ["cfg", n] =>
+    match nat? n with
+    | some n => ({ cfgd := true, live := true, c := mkCfg n, s := St.empty, kinds := [] }, "ok")
+    | none => (st, "bad-op")
+  | _ =>
+    if !st.cfgd then (st, "bad-op")
+    else match ws with
+    | "recv" :: rest =>
+      -- an optional k=… anywhere after the op name, then ref hex kind [whole= zips=]
+      let ks := rest.filter (·.startsWith "k=")
+      let rest := rest.filter (fun w => !w.startsWith "k=")
+      let bud? : Option Budget :=
+        match ks with
+        | [] => some Budget.unlimited
+        | [k] => parseBudget k
+        | _ => none
+      match bud?, rest with
+      | some bud, [r, v, k] => if isRef r then doRecv st r v k bud [] [] else (st, "bad-op")
+      | some bud, [r, v, k, w, z] =>
+        if isRef r && w.startsWith "whole=" && z.startsWith "zips=" && isRef (dropS w 6) then
+          match parseLayouts (dropS z 5) with
+          | some lays => doRecv st r v k bud (ofString (dropS w 6)) lays
+          | none => (st, "bad-op")
+        else (st, "bad-op")
+      | _, _ => (st, "bad-op")
+    | ["fetch", r] =>
+      if !isRef r then (st, "bad-op") else if !st.live then (st, "nosto")
+      else (st, showFOut (fetch st.s (ofString r)))
+    | ["sub", r, o, n] =>
+      match nat? o, nat? n with
+      | some o, some n =>
+        if !isRef r then (st, "bad-op") else if !st.live then (st, "nosto")
+        else (st, showFOut (subFetch st.s (ofString r) o n))
+      | _, _ => (st, "bad-op")
+    | ["stat", r] =>
+      if !isRef r then (st, "bad-op") else if !st.live then (st, "nosto")
+      else (st, match stat st.s (ofString r) with | some n => toString n | none => "notexist")
+    | ["enum", a, l] =>
+      match hexArg a, nat? l with
+      | some after, some limit =>
+        if !st.live then (st, "nosto")
+        else (st, joinOrDash "," ((BP.enumerate st.s after limit).map (fun e => s!"{refStr e.1}:{e.2}")))
+      | _, _ => (st, "bad-op")
+    | "rm" :: refs =>
+      if refs.isEmpty || !refs.all isRef then (st, "bad-op") else if !st.live then (st, "nosto")
+      else ({ st with s := refs.foldl (fun s r => remove st.c s (ofString r)) st.s }, "ok")
+    | ["restart", "none"] =>
+      let integ := showMode (checkLargeIntegrity st.s) ++ (if noMetaButZips st.s then "+nometa" else "")
+      ({ st with live := true }, "ok " ++ integ)
+    | ["restart", m] =>
+      if m != "fast" && m != "full" then (st, "bad-op")
+      else match reindex (m == "full") st.s with
+        | (s', .ok) => ({ st with s := s', live := true }, "ok " ++ showMode (checkLargeIntegrity s'))
+        | (s', .err) => ({ st with s := s', live := false }, "err none")
+        | (s', .panic) => ({ st with s := s', live := false }, "panic none")
+    | ["whole", r, o] =>
+      match nat? o with
+      | some o =>
+        if !isRef r then (st, "bad-op") else if !st.live then (st, "nosto")
+        else (st, match openWholeRef st.s (ofString r) o with
+          | .ok sz b => s!"ok {sz} {b.length} {(fnv64 b).toNat}"
+          | .notExist => "notexist"
+          | .readErr n => s!"readerr {n}")
+      | none => (st, "bad-op")
+    | ["dump"] => (st, dump st.s)
+    | _ => (st, "bad-op")
+
+def machine : Machine := { σ := DS, init := init, step := step }
+
 end Pk.Drv.C04
